@@ -95,10 +95,10 @@ inline Frame buildFrame(const Shape& sh, int vs) {
     for (size_t s = 0; s < sh.nsub; ++s) {
         SubFrame sf;
         for (size_t k = 0; k < sh.chans.size(); ++k) { Channel ch; ch.name(sh.chans[k]); ch.data(aval(vs, s, k)); sf.channel(ch); }
-        if (sh.raggedLast && s + 1 == sh.nsub) { Channel ch; ch.name("zz"); ch.data(aval(vs, s, sh.chans.size())); sf.channel(ch); }
         A.subframe(sf);
     }
     f.add(P, A);
+    if (sh.raggedLast && sh.nsub) { Channel ch; ch.name("zz"); ch.data(aval(vs, sh.nsub - 1, sh.chans.size())); f.analogs_nonConst().subframe_nonConst(sh.nsub - 1).channel(ch); }   // widened in place, as a caller filling its frame through the write accessors would
     return f;
 }
 // What buildFrame() is MEANT to hold, computed from the value formulas only (no library object involved): the oracles compare
